@@ -36,7 +36,9 @@ pub fn run_json(ts: &mut Toks) -> Option<String> {
                     let b = Variable::try_from(jv.clone()).map(|v| val_tokens(&v) == val_tokens(&res)).unwrap_or(false);
                     // and serde_json's own reading of the text gives the same Value
                     let c = serde_json::from_str::<serde_json::Value>(&text).map(|t| t == jv).unwrap_or(false);
-                    a && b && c
+                    // the Deserializer route: decoding the value into serde_json's generic type
+                    let d = serde_json::Value::deserialize((*res).clone()).map(|t| t == jv).unwrap_or(false);
+                    a && b && c && d
                 }
                 Err(_) => false,
             };
@@ -289,6 +291,8 @@ struct Marker;
 #[derive(serde::Deserialize, Debug, PartialEq)]
 enum En { A, B(u32), C(i8, bool), D { p: f64, q: Vec<u8> } }
 #[derive(serde::Deserialize, Debug, PartialEq)]
+enum En2 { At(Option<i32>), Mark(()), U(Marker), W(Wrap), V(Vec<u8>), N(Option<Option<bool>>), E(En), S {}, T() }
+#[derive(serde::Deserialize, Debug, PartialEq)]
 struct Nest { e: En, l: Vec<Pt>, m: BTreeMap<String, Option<En>>, t: (u64, i64), w: Wrap }
 
 fn de_both<T: for<'a> Deserialize<'a> + std::fmt::Debug>(v: &Variable) -> String {
@@ -336,6 +340,10 @@ pub fn run_de(ts: &mut Toks) -> Option<String> {
         "marker" => de_both::<Marker>(&v),
         "en" => de_both::<En>(&v),
         "nest" => de_both::<Nest>(&v),
+        "en2" => de_both::<En2>(&v),
+        "opt_en" => de_both::<Option<En>>(&v),
+        "vec_en2" => de_both::<Vec<En2>>(&v),
+        "map_en2" => de_both::<BTreeMap<String, En2>>(&v),
         "value" => de_both::<serde_json::Value>(&v),
         _ => return None,
     })
